@@ -28,7 +28,14 @@ def load_module_path(module_path: str) -> Any:
 	elems = module_path.split('.')
 	path = '.'.join(elems[:-1])
 	module = elems[-1]
-	return load_module(path, module)
+	try:
+		return load_module(path, module)
+	except ModuleNotFoundError as e:
+		# to_fullynameはネストしたクラスを`module.Outer.Inner`と表すため、モジュールとして存在しない部分はクラスを辿って解決
+		if e.name != path or len(elems) < 3:
+			raise
+
+		return getattr(load_module_path(path), module)
 
 
 def resolve_own_class(method: Callable) -> type:
